@@ -2,7 +2,7 @@
 
 from ..common import model_walk, run_kinds
 from ..core import AnalysisError
-from ..ir import show
+from ..ir import has_guard, show
 from ..kinds import count_of
 from ..rules_ift import Rep
 from ..rules_knn import K, check_knn_scan, find_knn_scans
@@ -34,14 +34,14 @@ def check_predict(chk, rep, repo, cls, fields):
     pre = ""
     check_knn_scan(rep, pre, sc, G, allow_self_skip=False)
     # query graph
-    pd = sc.per.domain
-    Q = count_of(pd[2][-1]) if pd[0] == "call" and pd[1] == ("builtin", "range") and len(pd[2]) == 1 else None
-    rep.fn("KNN-queries", fn, "per-sample loop visits every query node", Q is not None and Q[0] == "new",
-           f"outer loop domain is '{show(pd)}'", line=sc.per.line)
-    if Q is None:
+    from ..schema import node_loop
+    nlp = node_loop(sc.per)
+    okq = nlp is not None and nlp[0][0] == "new"
+    rep.fn("KNN-queries", fn, "per-sample loop visits every query node", okq,
+           f"outer loop domain is '{show(sc.per.domain)}'", line=sc.per.line)
+    if not okq:
         return 0
-    i = sc.i
-    x = ("idx", ("attr", Q, "nodes"), i)
+    Q, i, x = nlp
     kterm = sc.slot
     rep.fn("KNN-k", fn, "k is the model's stored best_k", kterm == ("attr", G, "best_k"),
            f"k is '{show(kterm)}'", line=sc.per.line)
@@ -76,10 +76,11 @@ def check_predict(chk, rep, repo, cls, fields):
            f"candidate is '{show(bs.cand)[:200]}'", line=li.line)
     # label / cluster copied from the same neighbour in the accepted branch
     for f in fields:
+        from ..ir import root_object
         st = [e for e in w.events if e.kind == "store" and e.target[0] == "attr" and e.target[2] == f
-              and e.target[1][0] == "idx" and e.target[1][1] == ("attr", Q, "nodes")]
+              and root_object(e.target) == Q]
         good = [e for e in st if e.target == ("attr", x, f) and e.value == ("attr", nbnode, f)
-                and any(g == bs.cond and pol for g, pol in e.guards) and any(g == need and pol for g, pol in e.guards)
+                and has_guard(e.guards, bs.cond) and has_guard(e.guards, need)
                 and e.loops == li.loops + (li.lid,)]
         rep.fn(f"ARGMAX-{f}", fn, f"{f} of the query is copied from the winning neighbour in the accepted branch",
                len(good) == 1 and len(st) == 1,
